@@ -22,7 +22,9 @@ THEOREMS = {
     "C17_sorted_is_sorted": "full",
     "C17_sorted_equal_keys_refuted": "refuted",
     "C17_order_invariant_ex": "example",
-    "C17_order_invariant_partial": "partial",
+    "C17_order_invariant": "full",
+    "C17_order_invariant_fs_ex": "example",
+    "C17_hierarchy_order_invariant": "full",
     "C17_pass_order_invariant": "full",
     "C17_order_invariant_hyp_ex": "example",
 }
